@@ -550,6 +550,9 @@ def _flip_not(t):
     """(if (not c) A B) ==> (if c B A)   (two-armed conditionals only)"""
     while _is(t, "if") and len(t) == 4 and t[3] != ("unit",) and _is(t[1], "un") and t[1][1] == "not" and len(t[1]) == 4:
         t = ("if", t[1][3], t[3], t[2])
+    if _is(t, "if") and len(t) == 4 and t[3] != ("unit",) and _is(t[1], "call") and isinstance(t[1][1], str) and t[1][1].endswith("cmp::PartialEq>::ne") and len(t[1]) == 4:
+        # derived / std PartialEq: ne is the negation of eq
+        t = ("if", ("call", t[1][1][:-2] + "eq") + t[1][2:], t[3], t[2])
     # a != b is exactly !(a == b) (also for NaN)
     if _is(t, "if") and len(t) == 4 and t[3] != ("unit",) and _is(t[1], "op") and len(t[1]) == 5 and t[1][1] == "ne":
         t = ("if", ("op", "eq") + t[1][2:], t[3], t[2])
